@@ -618,4 +618,272 @@ theorem mappingMapAux_step_mirror (mp : Mapping) (assoc : Int) (fuel i : Nat) (p
   rw [mappingMapAux]
   simp only [hi, if_true, hsm, hrv, hc, hci, hct, and_self, hcm, hp]
 
+/-! ### Undoing a history in place: the palindrome mapping -/
+
+/-- what the chain argument needs to know about a single map (for one association side):
+    a position that gets no recover value is brought back by the inverse map, and a recover value
+    is turned back into the position by `recover` of the inverse map -/
+def RoundTrips (m : StepMap) (assoc : Int) : Prop :=
+  ∀ p : Int,
+    ((m.mapResult p assoc).recover = none → m.invert.map (m.map p assoc) assoc = p) ∧
+    (∀ rv, (m.mapResult p assoc).recover = some rv → m.invert.recover rv = some p)
+
+/-- the shape of `palindrome ms` that the round-trip argument uses (nothing about `from_`, so that
+    slices of the palindrome have the same shape) -/
+structure IsPalindrome (mp : Mapping) (ms : List StepMap) : Prop where
+  maps : mp.maps = ms ++ ms.reverse.map StepMap.invert
+  to : mp.to = 2 * ms.length
+  mirror : ∀ i, i < 2 * ms.length → mp.getMirror i = some (2 * ms.length - 1 - i)
+
+theorem IsPalindrome.get_fwd {mp : Mapping} {ms : List StepMap} (h : IsPalindrome mp ms) (i : Nat)
+    (hi : i < ms.length) : mp.maps[i]? = some ms[i] := by
+  rw [h.maps, List.getElem?_append_left hi, List.getElem?_eq_getElem hi]
+
+theorem IsPalindrome.get_back {mp : Mapping} {ms : List StepMap} (h : IsPalindrome mp ms) (i : Nat)
+    (hi : i < ms.length) : mp.maps[2 * ms.length - 1 - i]? = some ms[i].invert := by
+  rw [h.maps, List.getElem?_append_right (by omega)]
+  have e : 2 * ms.length - 1 - i - ms.length = ms.length - 1 - i := by omega
+  rw [e, List.getElem?_map, List.getElem?_reverse (by omega)]
+  have e2 : ms.length - 1 - (ms.length - 1 - i) = i := by omega
+  rw [e2, List.getElem?_eq_getElem hi]
+  rfl
+
+/-- the inverses of a prefix of the history, applied last map first -/
+def unwind (assoc : Int) (pre : List StepMap) (p : Int) : Int :=
+  pre.foldr (fun m q => m.invert.map q assoc) p
+
+theorem unwind_take_succ (assoc : Int) (ms : List StepMap) (j : Nat) (hj : j < ms.length) (p : Int) :
+    unwind assoc (ms.take (j + 1)) p = unwind assoc (ms.take j) (ms[j].invert.map p assoc) := by
+  unfold unwind
+  rw [List.take_add_one, List.getElem?_eq_getElem hj, Option.toList_some, List.foldr_append]
+  rfl
+
+/-- second half of the palindrome: the inverse maps are applied one after the other (the mirror of
+    each of them precedes it, so there is never a jump) -/
+theorem palin_back {mp : Mapping} {ms : List StepMap} (h : IsPalindrome mp ms) (assoc : Int) :
+    ∀ (j idx : Nat), idx + j = 2 * ms.length → j ≤ ms.length →
+      ∀ (fuel : Nat) (p : Int) (del : Nat), j < fuel →
+      (mappingMapAux mp assoc fuel idx p del).map (·.pos) = some (unwind assoc (ms.take j) p) := by
+  intro j
+  induction j with
+  | zero =>
+    intro idx hidx _ fuel p del _
+    rw [mappingMapAux_done mp assoc fuel idx p del (by rw [h.to]; omega)]
+    simp [unwind]
+  | succ j ih =>
+    intro idx hidx hj fuel p del hf
+    obtain ⟨fuel, rfl⟩ : ∃ f, fuel = f + 1 := ⟨fuel - 1, by omega⟩
+    have hidx' : idx = 2 * ms.length - 1 - j := by omega
+    have hsm := h.get_back j (by omega)
+    rw [← hidx'] at hsm
+    rw [mappingMapAux_step_nojump mp assoc fuel idx p del ms[j].invert (by rw [h.to]; omega) hsm
+      (Or.inr (fun corr hc => by
+        rw [h.mirror idx (by omega)] at hc
+        have := Option.some.inj hc
+        omega))]
+    rw [ih (idx + 1) (by omega) (by omega) fuel _ _ (by omega), unwind_take_succ assoc ms j (by omega)]
+    rfl
+
+/-- first half of the palindrome: at map `j`, either the position has a recover value, jumps to the
+    mirror of map `j` and is recovered there, or it is mapped forward; in both cases the inverses of
+    the maps already passed bring it back -/
+theorem palin_fwd {mp : Mapping} {ms : List StepMap} (h : IsPalindrome mp ms) (assoc : Int)
+    (hrt : ∀ m ∈ ms, RoundTrips m assoc) (pos0 : Int) :
+    ∀ (n j : Nat), j + n = ms.length →
+      ∀ (fuel : Nat) (p : Int) (del : Nat), 2 * ms.length - j < fuel →
+      unwind assoc (ms.take j) p = pos0 →
+      (mappingMapAux mp assoc fuel j p del).map (·.pos) = some pos0 := by
+  intro n
+  induction n with
+  | zero =>
+    intro j hj fuel p del hf hu
+    rw [palin_back h assoc j j (by omega) (by omega) fuel p del (by omega), hu]
+  | succ n ih =>
+    intro j hj fuel p del hf hu
+    obtain ⟨fuel, rfl⟩ : ∃ f, fuel = f + 1 := ⟨fuel - 1, by omega⟩
+    have hjl : j < ms.length := by omega
+    have hsm := h.get_fwd j hjl
+    obtain ⟨hnone, hsome⟩ := hrt ms[j] (List.getElem_mem hjl) p
+    cases hrec : (ms[j].mapResult p assoc).recover with
+    | none =>
+      rw [mappingMapAux_step_nojump mp assoc fuel j p del ms[j] (by rw [h.to]; omega) hsm
+        (Or.inl hrec)]
+      apply ih (j + 1) (by omega) fuel _ _ (by omega)
+      rw [unwind_take_succ assoc ms j hjl]
+      have := hnone hrec
+      unfold StepMap.map at this
+      unfold StepMap.map
+      rw [this, hu]
+    | some rv =>
+      rw [mappingMapAux_step_mirror mp assoc fuel j p del ms[j] ms[j].invert rv
+        (2 * ms.length - 1 - j) p (by rw [h.to]; omega) hsm hrec (h.mirror j (by omega)) (by omega)
+        (by rw [h.to]; omega) (h.get_back j hjl) (hsome rv hrec)]
+      rw [palin_back h assoc j (2 * ms.length - 1 - j + 1) (by omega) (by omega) fuel p del (by omega),
+        hu]
+
+theorem getMirrorAux_none_of_nil (mp : Mapping) (hm : mp.mirror.isEmpty = true) (i : Nat) :
+    mp.getMirror i = none := by
+  have : mp.mirror = [] := List.isEmpty_iff.1 hm
+  simp [Mapping.getMirror, this, getMirrorAux]
+
+/-- **round trip through a palindrome-shaped mapping** (as `Mapping.map` computes it) -/
+theorem palin_roundtrip {mp : Mapping} {ms : List StepMap} (h : IsPalindrome mp ms)
+    (hfrom : mp.from_ = 0) (assoc : Int) (hrt : ∀ m ∈ ms, RoundTrips m assoc) (pos : Int) :
+    mp.map pos assoc = some pos := by
+  unfold Mapping.map
+  by_cases hm : mp.mirror.isEmpty = true
+  · have hk : ms.length = 0 := by
+      by_cases hk : ms.length = 0
+      · exact hk
+      · have := h.mirror 0 (by omega)
+        rw [getMirrorAux_none_of_nil mp hm] at this
+        cases this
+    have hms : ms = [] := List.eq_nil_of_length_eq_zero hk
+    subst hms
+    have h1 := h.maps
+    have h2 := h.to
+    simp at h1 h2
+    simp [hm, h1, h2, Mapping.mapPlain]
+  · simp only [hm, Bool.false_eq_true, if_false]
+    unfold Mapping.mapResult
+    rw [hfrom, h.to]
+    exact palin_fwd h assoc hrt pos ms.length 0 (by omega) _ pos 0 (by omega) (by simp [unwind])
+
+/-- the second half of a palindrome-shaped mapping, taken as a slice, is the plain composition of
+    the inverted maps, last map first (no complete mirror pair lies inside the slice) -/
+theorem palin_slice_back {mp : Mapping} {ms : List StepMap} (h : IsPalindrome mp ms)
+    (assoc : Int) (pos : Int) :
+    (mp.slice ms.length (some (2 * ms.length))).map pos assoc =
+      some (ms.foldr (fun m q => m.invert.map q assoc) pos) := by
+  have hs : IsPalindrome (mp.slice ms.length (some (2 * ms.length))) ms :=
+    ⟨h.maps, rfl, h.mirror⟩
+  unfold Mapping.map
+  by_cases hm : (mp.slice ms.length (some (2 * ms.length))).mirror.isEmpty = true
+  · have hk : ms.length = 0 := by
+      by_cases hk : ms.length = 0
+      · exact hk
+      · have := hs.mirror 0 (by omega)
+        rw [getMirrorAux_none_of_nil _ hm] at this
+        cases this
+    have hms : ms = [] := List.eq_nil_of_length_eq_zero hk
+    subst hms
+    rw [if_pos hm]
+    simp [Mapping.mapPlain, Mapping.slice]
+  · simp only [hm, Bool.false_eq_true, if_false]
+    unfold Mapping.mapResult
+    have e1 : (mp.slice ms.length (some (2 * ms.length))).from_ = ms.length := rfl
+    have e2 : (mp.slice ms.length (some (2 * ms.length))).to = 2 * ms.length := rfl
+    rw [e1, e2, palin_back hs assoc ms.length ms.length (by omega) (Nat.le_refl _) _ pos 0 (by omega),
+      List.take_length]
+    rfl
+
+/-! `palindrome ms` has the palindrome shape -/
+
+theorem appendMap_none_eq (acc : Mapping) (sm : StepMap) :
+    acc.appendMap sm = { acc with maps := acc.maps ++ [sm], to := acc.maps.length + 1 } := rfl
+
+theorem appendMap_some_eq (acc : Mapping) (sm : StepMap) (i : Nat) :
+    acc.appendMap sm (some i) =
+      { acc with maps := acc.maps ++ [sm], to := acc.maps.length + 1,
+                 mirror := acc.mirror ++ [acc.maps.length, i] } := by
+  simp [Mapping.appendMap, Mapping.setMirror]
+
+theorem foldl_appendMap_eq : ∀ (ms : List StepMap) (acc : Mapping), acc.to = acc.maps.length →
+    ms.foldl (fun acc m => acc.appendMap m) acc =
+      { acc with maps := acc.maps ++ ms, to := acc.maps.length + ms.length }
+  | [], acc, h => by cases acc; simp_all
+  | m :: rest, acc, h => by
+    rw [List.foldl_cons, foldl_appendMap_eq rest _ (by simp [appendMap_none_eq])]
+    simp [appendMap_none_eq]
+    omega
+
+/-- the mirror entries the second loop registers, when it starts with `base` maps -/
+def mirrorOf : Nat → List (StepMap × Nat) → List Nat
+  | _, [] => []
+  | base, mi :: rest => base :: mi.2 :: mirrorOf (base + 1) rest
+
+theorem foldl_undo_eq : ∀ (l : List (StepMap × Nat)) (acc : Mapping), acc.to = acc.maps.length →
+    l.foldl (fun acc mi => acc.appendMap mi.1.invert (some mi.2)) acc =
+      { acc with maps := acc.maps ++ l.map (fun mi => mi.1.invert),
+                 to := acc.maps.length + l.length,
+                 mirror := acc.mirror ++ mirrorOf acc.maps.length l }
+  | [], acc, h => by cases acc; simp_all [mirrorOf]
+  | mi :: rest, acc, h => by
+    rw [List.foldl_cons, foldl_undo_eq rest _ (by simp [appendMap_some_eq])]
+    simp [appendMap_some_eq, mirrorOf]
+    omega
+
+theorem getMirrorAux_cons2 (n a b : Nat) (rest : List Nat) :
+    getMirrorAux n (a :: b :: rest) =
+      if a = n then some b else if b = n then some a else getMirrorAux n rest := rfl
+
+theorem getMirrorAux_mirrorOf : ∀ (l : List (StepMap × Nat)) (b c : Nat), c ≤ b →
+    (∀ s (hs : s < l.length), l[s].2 + s + 1 = c) →
+    ∀ s, s < l.length →
+      getMirrorAux (b + s) (mirrorOf b l) = some (c - 1 - s) ∧
+      getMirrorAux (c - 1 - s) (mirrorOf b l) = some (b + s)
+  | [], _, _, _, _, s, hs => by simp at hs
+  | mi :: rest, b, c, hcb, hl, s, hs => by
+    have h0 := hl 0 (by simp)
+    simp only [List.getElem_cons_zero] at h0
+    have hrest : ∀ s (hs : s < rest.length), rest[s].2 + s + 1 = c - 1 := fun s hs' => by
+      have := hl (s + 1) (by simpa using hs')
+      simp only [List.getElem_cons_succ] at this
+      omega
+    rw [mirrorOf, getMirrorAux_cons2, getMirrorAux_cons2]
+    cases s with
+    | zero =>
+      constructor
+      · simp; omega
+      · rw [if_neg (by omega), if_pos (by omega)]; simp
+    | succ s =>
+      have hs' : s < rest.length := by simpa using hs
+      have hsc := hrest s hs'
+      obtain ⟨ih1, ih2⟩ := getMirrorAux_mirrorOf rest (b + 1) (c - 1) (by omega) hrest s hs'
+      constructor
+      · rw [if_neg (by omega), if_neg (by omega)]
+        have e : b + (s + 1) = b + 1 + s := by omega
+        rw [e, ih1]; congr 1; omega
+      · rw [if_neg (by omega), if_neg (by omega)]
+        have e : c - 1 - (s + 1) = c - 1 - 1 - s := by omega
+        rw [e, ih2]; congr 1; omega
+
+theorem palindrome_eq (ms : List StepMap) :
+    palindrome ms =
+      { maps := ms ++ ms.reverse.map StepMap.invert, mirror := mirrorOf ms.length ms.zipIdx.reverse,
+        from_ := 0, to := 2 * ms.length } := by
+  unfold palindrome
+  simp only []
+  rw [foldl_appendMap_eq ms _ rfl, foldl_undo_eq _ _ (by simp)]
+  have e : (ms.zipIdx.reverse.map fun mi => mi.1.invert) = ms.reverse.map StepMap.invert := by
+    have e' : (fun mi : StepMap × Nat => mi.1.invert) = StepMap.invert ∘ Prod.fst := rfl
+    rw [e', ← List.map_map, List.map_reverse, List.zipIdx_map_fst]
+  simp [e]
+  omega
+
+theorem palindrome_isPalindrome (ms : List StepMap) : IsPalindrome (palindrome ms) ms := by
+  rw [palindrome_eq]
+  refine ⟨rfl, rfl, fun i hi => ?_⟩
+  have hl : ∀ s (hs : s < ms.zipIdx.reverse.length), (ms.zipIdx.reverse)[s].2 + s + 1 = ms.length := by
+    intro s hs
+    simp at hs
+    rw [List.getElem_reverse]
+    simp
+    omega
+  simp only [Mapping.getMirror]
+  by_cases hik : i < ms.length
+  · have := (getMirrorAux_mirrorOf _ ms.length ms.length (Nat.le_refl _) hl (ms.length - 1 - i)
+      (by simp; omega)).2
+    have e : ms.length - 1 - (ms.length - 1 - i) = i := by omega
+    rw [e] at this
+    rw [this]; congr 1; omega
+  · have := (getMirrorAux_mirrorOf _ ms.length ms.length (Nat.le_refl _) hl (i - ms.length)
+      (by simp; omega)).1
+    have e : ms.length + (i - ms.length) = i := by omega
+    rw [e] at this
+    rw [this]; congr 1; omega
+
+theorem palindrome_from (ms : List StepMap) : (palindrome ms).from_ = 0 := by
+  rw [palindrome_eq]
+
 end PM
